@@ -216,7 +216,14 @@ MUTANTS = [
     ("fixrevert_d16_validity_of_unresolved_tree", [(CE, """        if any(tree.scan_values(lambda value: isinstance(value, Token) and value.type == "CONDITION_EXPRESSION")):""", """        if False and any(tree.scan_values(lambda value: isinstance(value, Token) and value.type == "CONDITION_EXPRESSION")):""")], ["C06"]),
     ("fixrevert_d17_shared_label_tokens", [(UTIL, """    tree_copied = type(tree)(copy.copy(tree.data), [], meta=getattr(tree, "_meta", None))""", """    tree_copied = type(tree)(tree.data, [], meta=getattr(tree, "_meta", None))"""), (UTIL, """                child_copied = type(child)(copy.copy(child.data), [], meta=getattr(child, "_meta", None))""", """                child_copied = type(child)(child.data, [], meta=getattr(child, "_meta", None))""")], ["C11"]),
     ("fixrevert_d15b_offset_minutes_60_to_99", [(TAG, """    r"(?:[Zz]|[+-]\\d{2}(?::?[0-5]\\d(?::?[0-5]\\d)?)?)?",""", """    r"(?:[Zz]|[+-]\\d{2}(?::?\\d{2}(?::?\\d{2}(?:\\.\\d+)?)?)?)?",""")], ["C20"]),
-    ("fixrevert_d16b_time_conditions_of_unresolved_tree", [(CE, """                tree = expand_time_conditions(AhbExpressionResolverTransformer().transform(tree))""", """                tree = AhbExpressionResolverTransformer().transform(tree)""")], ["C06"]),
+    ("fixrevert_d16b_time_conditions_of_given_trees", [(CE, """        # time conditions that have not been replaced yet are replaced now (just like for a str)
+        tree = expand_time_conditions(tree)
+""", "")], ["C06"]),
+    ("fixrevert_d16c_time_conditions_only_of_unresolved_trees", [(CE, """                tree = AhbExpressionResolverTransformer().transform(tree)
+            except VisitError as visit_err:""", """                tree = expand_time_conditions(AhbExpressionResolverTransformer().transform(tree))
+            except VisitError as visit_err:"""), (CE, """        # time conditions that have not been replaced yet are replaced now (just like for a str)
+        tree = expand_time_conditions(tree)
+""", "")], ["C06"]),
     ("fixrevert_d18a_cer_resolver_own_format", [("src/ahbicht/expressions/package_expansion.py", """            return PackageKeyConditionExpressionMapping(
                 edifact_format=evaluatable_data.edifact_format,
                 package_expression=package_expression,""", """            return PackageKeyConditionExpressionMapping(
